@@ -58,6 +58,14 @@ func (it *interp) analyzeLoop(f frameID, fn *ssa.Function, L *loop, ins []edgeIn
 	if entry.empty() {
 		return nil
 	}
+	if it.loopEntryCap > 0 && len(entry.ds) > it.loopEntryCap {
+		// the body's own case splits multiply with the paths that reach the loop: a loop entered on more
+		// paths than this is analysed from a coarser entry state (sound: merging only forgets)
+		saveK := it.K
+		it.K = it.loopEntryCap
+		entry = it.reduce(entry)
+		it.K = saveK
+	}
 	memoKey := fmt.Sprintf("%d|%p", f, head)
 	for i, d := range entry.ds {
 		if d.tags == nil {
@@ -717,6 +725,24 @@ func genCandidates(vars []lvar, terms []term) []cand {
 					}
 					return lin.EQ(ci.Add(cj.Scale(sgn)), ii.Add(ij.Scale(sgn))), true
 				})
+			}
+			if vars[i].lenVar != vars[j].lenVar {
+				// an index that trails a slice length by a constant (cur = len(list)-1 while the list is
+				// appended to): stated absolutely, so it survives merged entry states
+				a, b := i, j // a: the counter, b: the length
+				if vars[i].lenVar {
+					a, b = j, i
+				}
+				for _, k := range []int64{-1, 0} {
+					k := k
+					add(fmt.Sprintf("%s == %s%+d", vars[a].name, vars[b].name, k), func(d *disjunct, cur, init func(int) *lin.Lin) ([]lin.Ineq, bool) {
+						ca, cb := cur(a), cur(b)
+						if ca == nil || cb == nil {
+							return nil, false
+						}
+						return lin.EQ(ca, cb.AddConst(k)), true
+					})
+				}
 			}
 			for _, k := range []int64{4, 5} {
 				k := k
